@@ -710,7 +710,56 @@ def cases(tier):
                 out.append({"part": "b", "stage": stage, "automatic": automatic, "initexp": initexp, "max_iter": mt})
     out += history_cases(tier)
     out += fault_cases(tier)
+    out += refusal_cases(tier)
     return out
+
+
+def refusal_cases(tier):
+    """part e: the only way a valid description may be refused is PipeflowNotConverged. All two-junction networks
+    (one or two parallel branches of every kind) x every point within 2 deviations of which one is a solver setting
+    (friction model, damping method / factor, engine), solved with extreme inner tolerances."""
+    from mc import scopes
+    out = []
+    for c in scopes.h_cases(2, 2, 2 if tier == "quick" else 3):
+        names = [d[0] for d in c["dev"]]
+        if any(n in ("friction", "method", "alpha", "numba") for n in names) and any(n.startswith("e") for n in names):
+            out.append({"part": "e", "case": c})
+    return out
+
+
+def run_refusal(case):
+    from mc import scopes
+    c = case["case"]
+    sp, opts = scopes.h_spec(c)
+    vs = []
+    statuses = []
+    for inner in ({"tolerance_colebrook": 1e-13, "max_iter_colebrook": 200}, {"max_iter_colebrook": 3}, {}):
+        net, idmap = spec.build(sp)
+        kw = dict(spec.TIGHT)
+        kw.update(opts)
+        kw.pop("tolerance_colebrook", None)
+        kw.pop("max_iter_colebrook", None)
+        kw.update(inner)
+        try:
+            pp.pipeflow(net, **kw)
+            st = "returned"
+        except PipeflowNotConverged:
+            st = "not_converged"
+        except Exception as e:
+            st = "raised:" + type(e).__name__
+            vs.append(viol("wrong_exception_type", "two-junction net %s, options %s: %s: %s" % (
+                c["dev"], {k: v for k, v in kw.items() if k in ("friction_model", "nonlinear_method", "alpha", "use_numba",
+                                                               "tolerance_colebrook", "max_iter_colebrook")},
+                type(e).__name__, str(e)[:120]), exc=type(e).__name__, friction=kw.get("friction_model")))
+        if st != "returned":
+            if net.converged or any(np.isfinite(net[t].values.astype(float)).any() for t in net.keys()
+                                    if t.startswith("res_") and hasattr(net[t], "values") and net[t].size):
+                vs.append(viol("failed_but_results", "two-junction net %s: %s, but converged=%s or result tables hold numbers" % (
+                    c["dev"], st, net.converged), exc=st))
+        statuses.append(st)
+    return {"status": "ok", "violations": vs, "states": [core.jhash([c, i]) for i in range(3)], "transitions": 3, "traces": 3,
+            "nontrivial": "returned" in statuses, "sig": core.jhash([c["dev"], statuses]),
+            "info": {"refusal_" + s_: statuses.count(s_) for s_ in set(statuses)}}
 
 
 def run_case(case):
@@ -733,4 +782,6 @@ def run_case(case):
         return run_history(case)
     if part == "d":
         return run_faults(case)
+    if part == "e":
+        return run_refusal(case)
     raise KeyError(part)
